@@ -16,7 +16,7 @@ theorem stage_poll {g : Cfg} (ok : g.OK) {c : Conn} (hst : Stage g c) :
   | start hph hwire hraw hlog hb hstop hsc hm hev => exact start_poll ok hph hwire hraw hlog hb hstop hsc hm hev
   | parse hst hsc hm hev => exact (parse_poll ok hst hsc hm hev).mono (by omega)
   | @hread r h hph hr hb hstop hev hsc =>
-    exact (handler_core ok hph (rd_poll ok hr hb hr.fuel) hb hstop hev hsc).mono (by omega)
+    exact (handler_core ok hph (rd_poll ok hr hb (Nat.le_trans hr.fuel (Nat.le_add_right _ _))) hb hstop hev hsc).mono (by omega)
   | @hwrite r h O1 hph hw hb hstop hev hsc =>
     refine (handler_core ok hph (write_phase hw hb ?_) hb hstop hev hsc).mono (by omega)
     have := handlerFuel_ge c.env r
